@@ -1,0 +1,23 @@
+//go:build verif
+
+package protodesc
+
+import (
+	"google.golang.org/protobuf/internal/filedesc"
+	"google.golang.org/protobuf/types/descriptorpb"
+)
+
+// Descriptor validation (C35): validateEnumDeclarations looks at an enum's first value (the
+// open-enum rule "first value is zero") only after it has established that the enum declares at
+// least one value - an empty enum is rejected with an error, never indexed.
+//
+//@ pure descriptorpb.EnumDescriptorProto.GetValue
+
+// @ props C35
+// @ mode int
+// @ nopanic
+// @ site if v := e.Values().Get(0); v.Number() != 0 {...: len(ed.GetValue()) > 0
+func contract_validateEnumDeclarations(es []filedesc.Enum, eds []*descriptorpb.EnumDescriptorProto) (err error) {
+	modifiesAll()
+	return
+}
